@@ -12,7 +12,7 @@
 import argparse, fcntl, glob, hashlib, importlib, json, os, re, shutil, subprocess, sys, time
 
 ROOT = os.path.dirname(os.path.dirname(os.path.abspath(__file__)))
-COQ = os.path.join(ROOT, "coq")
+COQ = os.environ.get("VERIF_COQ") or os.path.join(ROOT, "coq")      # VERIF_COQ: a private copy (scratch runs against a modified tree)
 REPO = os.environ.get("VERIF_REPO", "/repo")
 PY = sys.executable
 STATIC_DIRS = ["Kit", "Model", "Proofs", "Pinned", "Gen", "Inst", "InstP", "Run", "RunP", "Props"]
@@ -66,7 +66,7 @@ def ensure_makefile():
 
 
 def translate(pin=False):
-    rc, out = sh([PY, os.path.join(ROOT, "tools", "translate.py"), "--repo", REPO] + (["--pin"] if pin else []), timeout=120)
+    rc, out = sh([PY, os.path.join(ROOT, "tools", "translate.py"), "--repo", REPO, "--out", os.path.join(COQ, "Gen"), "--pinned", os.path.join(COQ, "Pinned")] + (["--pin"] if pin else []), timeout=120)
     if rc != 0:
         raise SystemExit("translator crashed:\n" + out)
     return json.loads(out)
@@ -225,7 +225,10 @@ def main():
             violations.append({"kind": "oracle", "detail": v["detail"], "case": v["case"]})
         for fname, nbad, ids in bad:
             for cid in ids[:3]:
-                meta = res["meta"].get(str(cid)) or res["meta"].get(cid)
+                if re.search(r"sys_\d+\.v$", os.path.basename(fname)):      # second case family of a harness: ids are local to its files
+                    meta = res["meta"].get(f"s{cid}")
+                else:
+                    meta = res["meta"].get(str(cid)) or res["meta"].get(cid)
                 violations.append({"kind": "correspondence", "detail": f"model ({'regenerated' if variant == 'Run' else 'pinned'}) and implementation disagree on case {cid} of {fname}", "case": meta})
     finally:
         if not os.environ.get("VERIF_KEEP_CASES"):
